@@ -345,7 +345,7 @@ def attr_options(opts):
 
 def add_bench(m, path, indent, raw_name, form="plain", args=None, types=None, consts=None, consts_expr=None,
               type_first=True, options=None, ignore_attr=False, name=None, extern=None, display_module=None,
-              body="hit", bencher_style=None, cost=1000, pre=None, expect_options=None, const_ty="usize", const_labels_given=None, lifetime=False):
+              body="hit", bencher_style=None, cost=1000, pre=None, expect_options=None, const_ty="usize", const_labels_given=None, lifetime=False, ret_alloc=False):
     """Emits one #[divan::bench] function into module `path` (list of module names below the crate root).
     Returns the bench dict."""
     pad = " " * indent
@@ -429,6 +429,10 @@ def add_bench(m, path, indent, raw_name, form="plain", args=None, types=None, co
         else:
             raise ValueError(style)
         body_text = "%s %s" % (enter, inner)
+    elif ret_alloc:
+        # a function without a Bencher whose output owns one 32-byte allocation: the allocation is timed,
+        # the output's destructor (the deallocation) runs after the end
+        body_text = "%s; Vec::<u8>::with_capacity(32)" % call
     else:
         body_text = "%s;" % call
     if pre:
@@ -438,7 +442,9 @@ def add_bench(m, path, indent, raw_name, form="plain", args=None, types=None, co
     if ignore_attr:
         # `#[ignore]` or, given a string, the name-value spelling `#[ignore = "reason"]`
         text_lines.append(pad + ('#[ignore = "%s"]' % ignore_attr if isinstance(ignore_attr, str) else "#[ignore]"))
-    fn_line_text = "%s%sfn %s%s(%s) { %s }" % (pad, ext, raw_name, gen, ", ".join(params), body_text)
+    if ret_alloc and extern:
+        text_lines.append(pad + "#[allow(improper_ctypes_definitions)]")
+    fn_line_text = "%s%sfn %s%s(%s)%s { %s }" % (pad, ext, raw_name, gen, ", ".join(params), " -> Vec<u8>" if ret_alloc else "", body_text)
     text_lines.append(fn_line_text)
     first = m.emit("\n".join(text_lines))
     fn_line = first + len(text_lines) - 1
@@ -450,7 +456,7 @@ def add_bench(m, path, indent, raw_name, form="plain", args=None, types=None, co
         "line": loc_line, "col": indent + 1, "fn_line": fn_line, "form": form, "args": labels, "args_kind": args,
         "types": list(types) if types is not None else None, "consts": const_labels, "type_first": type_first,
         "options": dict((disp(k), v) for k, v in (options or [])), "ignore": (True if ignore_attr or any(disp(k) == "ignore" and v in (None, "true") for k, v in (options or [])) else (False if any(disp(k) == "ignore" and v == "false" for k, v in (options or [])) else None)),
-        "style": bencher_style if form == "bencher" else None, "body": body, "cost": cost,
+        "style": bencher_style if form == "bencher" else ("plain_alloc_out" if ret_alloc else None), "body": body, "cost": cost,
         "gen_cost": 3000 if (form == "bencher" and bencher_style == "values_costly") else 0,
         "expect_options": expect_options, "const_ty": const_ty if consts is not None else None,
     }
